@@ -174,14 +174,20 @@ def deps_of(vfile, seen=None):
     except OSError:
         return seen
     txt = re.sub(r"\(\*.*?\*\)", "", txt, flags=re.S)
-    for m in re.finditer(r"(?:From\s+Verif(?:\.([A-Za-z]+))?\s+)?Require\s+(?:Import\s+|Export\s+)?([^.]*(?:\.[A-Za-z_][^.\s]*)*)\.", txt):
-        prefix, mods = m.group(1), m.group(2)
-        for mod in mods.split():
+    # sentences end with a period followed by white space
+    for sent in re.split(r"\.\s", txt + "\n"):
+        m = re.match(r"\s*(?:From\s+(\S+)\s+)?Require\s+(?:Import\s+|Export\s+)?(.*)$", sent.strip(), re.S)
+        if not m:
+            continue
+        prefix = m.group(1)
+        for mod in m.group(2).split():
             parts = mod.split(".")
-            if parts[0] == "Verif":
+            if prefix and prefix.split(".")[0] == "Verif":
+                parts = prefix.split(".")[1:] + parts
+            elif parts[0] == "Verif":
                 parts = parts[1:]
-            if prefix:
-                parts = [prefix] + parts
+            else:
+                continue
             if len(parts) == 2 and os.path.exists(os.path.join(COQ, parts[0], parts[1] + ".v")):
                 deps_of("%s/%s.v" % (parts[0], parts[1]), seen)
     return seen
